@@ -129,6 +129,12 @@ def inputs(tier, seed, corpus):
         for bad in ('#', '@', '\\', ')', ']', 'b c', '"open', '/* open'):
             yield 'x = y %s %s' % (prev, bad) if prev in ('%', '%=') else 'x = %s %s' % (prev, bad)
             yield 'x = %s%s;' % (prev, bad)
+    # format-control and other characters that are not white space of the language, at the very end and followed only by white space
+    for odd in ('\xad', '\u200b', '\u200c', '\u200d', '\u200e', '\u2060', '\u061c', '\x00', '\x7f', '\x85', '\u180e'):
+        for tail in ('', ' ', '\t', '\n', ' \n ', odd, ' ' + odd + ' '):
+            yield 'var a = 1;' + odd + tail
+            yield odd + tail
+            yield 'a ' + odd + tail
     yield '/x\ny/ /'
     yield 'a = /x\ny/ )'
     yield '"\\\n" +'
